@@ -26,6 +26,22 @@ NOT_DECIDED = ["lagging subscribers (broadcast capacity overflow)", "interleavin
 ASSUMPTIONS = ["a &mut to the map can only be obtained through a mutable borrow of the field (no interior mutability in HashMap)"]
 
 
+def event_calls(b, o=None):
+    """Event emissions in body `b`, in either form: `self.send_event(ev)` or a direct `peer_event_sender.send(ev)`
+    (what is left when a helper taking the sender explicitly was inlined). Returns [(call, event term)]."""
+    o = o or Origins(b)
+    out = []
+    for c in b.calls():
+        if b.is_cleanup(c.bb):
+            continue
+        if name_matches(c.fn or "", f"{INNER}::send_event"):
+            out.append((c, strip_identity(o.of_operand(c.args[1]))))
+        elif name_matches(c.fn or "", "tokio::sync::broadcast::Sender::send") and any("PeerEvent" in g for g in c.ga) \
+                and mentions_field(o.of_operand(c.args[0]), "peer_event_sender"):
+            out.append((c, strip_identity(o.of_operand(c.args[1]))))
+    return out
+
+
 def run(cx):
     prog = cx.prog
     A = ["anemo"]
@@ -40,10 +56,19 @@ def run(cx):
         sends = [c for c in prog.callers_of("tokio::sync::broadcast::Sender::send")
                  if any("PeerEvent" in g for g in c.ga)]
         ob.floor(sends, 1, "broadcast::Sender<PeerEvent>::send sites")
+        n_emit = 0
         for c in sends:
-            ob.require(c.body.path == f"{INNER}::send_event", f"event-send/{owner_path(prog, c.body)}",
-                       f"PeerEvent is broadcast from {c.body.path}, not from send_event", c.body.path, c.body.loc(c.bb))
-        check_callers(ob, prog, f"{INNER}::send_event", MUTATORS, exact=4, what="send_event")
+            owns = owner_paths(prog, c.body)
+            in_helper = c.body.path == f"{INNER}::send_event"
+            in_mut = bool(owns) and all(o_ in MUTATORS for o_ in owns)
+            ob.require(in_helper or in_mut, f"event-send/{owner_path(prog, c.body)}",
+                       f"PeerEvent is broadcast from {c.body.path}, not from send_event / one of the three mutators", c.body.path, c.body.loc(c.bb))
+            ob.require(mentions_field(Origins(c.body).of_operand(c.args[0]), "peer_event_sender"), f"event-send/sender/{owner_path(prog, c.body)}",
+                       "PeerEvent is broadcast on something other than self.peer_event_sender", c.body.path, c.body.loc(c.bb))
+            if in_mut and not in_helper:
+                n_emit += 1
+        n_emit += len(check_callers(ob, prog, f"{INNER}::send_event", MUTATORS, what="send_event"))
+        ob.floor(n_emit, 4, "event emission sites in the three mutators")
         # the sender field itself: only read (shared) — never moved out / replaced
         check_field_writers(ob, prog, INNER, "peer_event_sender", [f"{INNER}::new"], kinds=("mutref", "write", "move"))
 
@@ -121,7 +146,7 @@ def run(cx):
                 return None
             if name_matches(fn, "anemo::connection::Connection::close"):
                 return "close(%s)" % conn_name(o.of_operand(c.args[0]))
-            if name_matches(fn, f"{INNER}::send_event"):
+            if name_matches(fn, f"{INNER}::send_event") or (name_matches(fn, "tokio::sync::broadcast::Sender::send") and any("PeerEvent" in g for g in c.ga)):
                 t = strip_identity(o.of_operand(c.args[1]))
                 if t[0] == "agg" and t[2].endswith("PeerEvent::LostPeer"):
                     return "send(Lost)"
@@ -208,10 +233,9 @@ def run(cx):
         ob.floor(e, 1, "HashMap::entry in add", exact=True)
         ob.require(is_new_pid(arg_origin(e[0], 1, o)), "add/entry-key", f"add: entry key is {show(arg_origin(e[0], 1, o))}", b.path, b.loc(e[0].bb))
         ob.require(mentions_field(arg_origin(e[0], 0, o), "connections"), "add/entry-map", "add: entry() not on self.connections", b.path)
-        evs = b.calls_to(f"{INNER}::send_event")
-        ob.floor(evs, 2, "send_event in add", exact=True)
-        for c in evs:
-            t = strip_identity(arg_origin(c, 1, o))
+        evs = event_calls(b, o)
+        ob.floor(evs, 2, "event emissions in add", exact=True)
+        for c, t in evs:
             ob.require(t[0] == "agg" and is_new_pid(t[3][0]), f"add/event-id", f"add: event carries {show(t)}", b.path, b.loc(c.bb))
             if t[0] == "agg" and t[2].endswith("LostPeer"):
                 r = strip_identity(t[3][1])
@@ -227,8 +251,7 @@ def run(cx):
         ob.floor(rm, 1, "HashMap::remove in remove", exact=True)
         ob.require(is_param(arg_origin(rm[0], 1, o), "peer_id") and mentions_field(arg_origin(rm[0], 0, o), "connections"),
                    "remove/key", "remove: map.remove not keyed by the peer_id parameter on self.connections", b.path)
-        for c in b.calls_to(f"{INNER}::send_event"):
-            t = strip_identity(arg_origin(c, 1, o))
+        for c, t in event_calls(b, o):
             ob.require(t[0] == "agg" and is_param(t[3][0], "peer_id") and is_param(t[3][1], "reason"), "remove/event",
                        f"remove: event is {show(t)}", b.path, b.loc(c.bb))
 
@@ -248,8 +271,7 @@ def run(cx):
         for c in b.calls_to("anemo::connection::Connection::stable_id"):
             t = arg_origin(c, 0, o)
             ob.require(term_has_call(t, "OccupiedEntry::get"), "rws/stable-id-of-entry", f"stable_id() taken of {show(t)}", b.path, b.loc(c.bb))
-        for c in b.calls_to(f"{INNER}::send_event"):
-            t = strip_identity(arg_origin(c, 1, o))
+        for c, t in event_calls(b, o):
             ok = t[0] == "agg" and t[2].endswith("LostPeer") and is_param(t[3][1], "reason") and (
                 is_param(t[3][0], "peer_id") or term_has_call(t[3][0], "OccupiedEntry::remove_entry"))
             ob.require(ok, "rws/event", f"remove_with_stable_id: event is {show(t)}", b.path, b.loc(c.bb))
@@ -320,6 +342,13 @@ def run(cx):
         ob.require(own_conn(arg_origin(c, 1, o), "peer_id"), "handler-exit/peer-id", f"handler exit removes peer {show(arg_origin(c, 1, o))}", co.path, co.loc(c.bb))
         ob.require(own_conn(arg_origin(c, 2, o), "stable_id"), "handler-exit/stable-id", f"handler exit removes stable id {show(arg_origin(c, 2, o))}", co.path, co.loc(c.bb))
         ob.require(mentions_field(arg_origin(c, 0, o), "active_peers"), "handler-exit/own-map", "handler exit does not use its own active_peers", co.path)
+        # "no peer whose connection it has closed or seen closed": the removal is not skippable - every path on which the
+        # handler task returns (loop left for whatever reason) passes it, once, after the loop
+        rets = co.return_blocks()
+        ob.count(len(rets))
+        ob.require(all(co.all_paths_pass(0, [r], [c.bb], succ=co.succ_noawait) for r in rets), "handler-exit/on-every-return",
+                   "a path on which the connection handler returns skips remove_with_stable_id (the peer stays listed although its connection is gone)", co.path, co.loc(c.bb))
+        ob.require(c.bb not in co.cyclic_blocks(), "handler-exit/after-loop", "remove_with_stable_id lies inside the handler loop", co.path, co.loc(c.bb))
         check_callers(ob, prog, f"{API}::remove_with_stable_id", [f"{RH}::start"], exact=1, what="ActivePeers::remove_with_stable_id")
         check_callers(ob, prog, f"{API}::remove", ["anemo::network::NetworkInner::disconnect"], exact=1, what="ActivePeers::remove (by peer)")
         check_callers(ob, prog, f"{API}::add", [f"{CM}::ConnectionManager::add_peer"], exact=1, what="ActivePeers::add")
